@@ -32,6 +32,10 @@ def check(ctx: Ctx) -> None:
     r1_fresh_names(ctx, "C01.R4")
     r5(ctx)
     r6(ctx)
+    # "storage with real mutual exclusion": the lock primitives the protocol relies on keep their shape
+    from .c19 import r1 as c19_r1, r5 as c19_r5
+    c19_r1(ctx, "C01.R7")
+    c19_r5(ctx, "C01.R8")
 
 
 def commit_fn(ctx: Ctx) -> FunctionInfo:
